@@ -262,6 +262,7 @@ package engine
 // that the container can be rebuilt around the rewritten statements.
 //@ func (m stmtSliceContainerMatcher) Match(v, d, r) (d1, ok)
 //@   requires typing: tkind(gt("BlockStmtType")) == 25 && tkind(gt("CaseClauseType")) == 25 && tkind(gt("CommClauseType")) == 25
+//@   requires typing: telem(rtype(v)) == gt("CaseClauseType") || telem(rtype(v)) == gt("CommClauseType") ==> kind(fieldNamed(relem(v), "Colon")) == 2
 //@   requires typing: tkind(rtype(v)) == 22 && (telem(rtype(v)) == gt("BlockStmtType") || telem(rtype(v)) == gt("CaseClauseType") || telem(rtype(v)) == gt("CommClauseType")) ==> !risnil(v)
 //@   requires typing: m.Stmts != nil
 //@   requires typing: gt("BlockStmtType") != nil && gt("CaseClauseType") != nil && gt("CommClauseType") != nil && gt("BlockStmtType") != gt("CaseClauseType") && gt("BlockStmtType") != gt("CommClauseType")
